@@ -11,9 +11,15 @@ RULE = ("odometer enumeration (no randomness); every case is one program of aws_
         "depth <= 3, every labelling with 14 leaf kinds and array/indefinite array/map/indefinite map/tag containers, followed by a "
         "sentinel, skipped cold and after a peek.  non-trivial = ints/intsweep: argument >= 24 (multi-byte head); doubles/dgrid: the "
         "documented form (integer/single/double) differs from that of a nextafter neighbour, or inf/NaN; strings: length >= 24; "
-        "seq: >= 2 calls; nest: root is a container or tag with children.")
+        "seq: >= 2 calls; nest: root is a container or tag with children; fill = each of the 22 calls issued with exactly 0..14 (0..17) "
+        "free bytes left before the encoder buffer's first (second) growth point, all non-trivial.  The thorough tier repeats the "
+        "quick-tier space against the Debug build of the library (its own assertions live).")
 HARNESSES = [
     dict(name="cbor_rt", src=["cbor_rt.c"], variant="asan", deadline={"quick": 120, "thorough": 900}),
+    # the quick-tier space once more against the Debug build: the library's own AWS_ASSERT / AWS_PRECONDITION lines
+    # (e.g. "lookahead cache is empty when a libcbor callback fires", "exactly one byte was encoded") are live
+    dict(name="cbor_rt_dbg", src=["cbor_rt.c"], variant="asan-dbg", tiers=["thorough"], args={"thorough": ["--small"]},
+         deadline={"thorough": 300}),
 ]
 ASSUMPTIONS = [
     "bounds: programs of <= 4 encoder calls from 22 representative calls; nestings of <= 5 nodes, depth <= 3; strings <= 131072 bytes; "
